@@ -6,6 +6,7 @@ import (
 	"fmt"
 	"os"
 	"sort"
+	"strings"
 	"testing"
 	"time"
 
@@ -16,7 +17,6 @@ import (
 )
 
 const (
-	findK3    = "K3-vs-destination-imports-invisible-same-namespace-service"
 	findPaths = "C07-exact-host-fast-path-differs-from-scan-path"
 )
 
@@ -141,7 +141,7 @@ func genVS(r *randx, i int) VS {
 	for k := 0; k < nh; k++ {
 		v.Hosts = append(v.Hosts, vlib.Pick(r.Rand, hostPool))
 	}
-	v.Export = append([]string{}, vlib.Pick(r.Rand, [][]string{nil, nil, {"*"}, {"."}, {"ns1"}, {"ns2", "."}, {"ns3"}, {"~"}, {"ns1", "ns2"}})...)
+	v.Export = append([]string{}, vlib.Pick(r.Rand, [][]string{nil, nil, {"*"}, {"."}, {"ns1"}, {"ns2", "."}, {"ns3"}, {"~"}, {"ns1", "ns2"}, {"~", "ns1"}})...)
 	switch r.Intn(10) {
 	case 0:
 		v.GwList, v.Mesh = []string{"gw1"}, false
@@ -297,27 +297,15 @@ func scopeTags(w World, o OScope, gateway bool) []string {
 	return tags
 }
 
-// K3: every leaked service is in the proxy namespace and is a VirtualService destination
-func k3Only(b *built, w World, cfg string, o OScope) (leak bool, k3 bool) {
-	dests := map[string]bool{}
-	for _, v := range w.VSs {
-		for _, rt := range v.Routes {
-			for _, d := range rt.Dests {
-				dests[d.Host] = true
-			}
-		}
-	}
-	k3 = true
+// leaked reports whether the real scope holds a service that the real IsServiceVisible denies
+func leaked(b *built, cfg string, o OScope) bool {
 	for _, s := range o.Services {
 		rs := b.real[s.Name]
 		if rs == nil || !b.ps.IsServiceVisible(rs, cfg) {
-			leak = true
-			if rs == nil || s.Ns != cfg || !dests[s.Host] {
-				k3 = false
-			}
+			return true
 		}
 	}
-	return leak, leak && k3
+	return false
 }
 
 func TestGen(t *testing.T) {
@@ -371,6 +359,10 @@ func TestGen(t *testing.T) {
 	lap("scope")
 	genPaths(t, c, &id, seed)
 	lap("paths")
+	genDR(t, c, &id, seed)
+	lap("dr")
+	genE2E(t, c, &id, seed)
+	lap("e2e")
 	genWitnesses(t, c, &id)
 
 	if err := c.Flush(); err != nil {
@@ -497,9 +489,26 @@ func scopeTerm(id int, w World, cfg string, lbls []string, gateway bool, o OScop
 	return vlib.App("Scope", args...)
 }
 
+// allExact mirrors the syntactic condition under which convertIstioListenerToWrapper takes the exact-host fast path
+func allExact(l Listener) bool {
+	for _, h := range l.Hosts {
+		if strings.Count(h, "/") != 1 {
+			continue
+		}
+		ns, name, _ := strings.Cut(h, "/")
+		if strings.HasPrefix(ns, "~") {
+			continue
+		}
+		if ns == "*" || strings.HasPrefix(name, "*") {
+			return false
+		}
+	}
+	return true
+}
+
 func addScopeCase(t *testing.T, c *vlib.Collector, id int, w World, cfg string, lbls []string, gateway bool, r *vlib.Rand, extraTags ...string) {
 	var o OScope
-	var leak, k3 bool
+	var leak, fastDiffers bool
 	pan, msg := vlib.Recover(func() {
 		b, err := build(w, r)
 		if err != nil {
@@ -507,7 +516,37 @@ func addScopeCase(t *testing.T, c *vlib.Collector, id int, w World, cfg string, 
 		}
 		defer b.Close()
 		o = runScope(b, cfg, lbls, gateway)
-		leak, k3 = k3Only(b, w, cfg, o)
+		leak = leaked(b, cfg, o)
+		// known finding (exact-host fast path differs from scan path): when the applied Sidecar has an all-exact
+		// listener, run the same proxy with a dead wildcard host added to those listeners; a different scope is that finding
+		if !gateway && o.Sidecar != 0 {
+			w2 := w
+			w2.SCs = nil
+			changed := false
+			for _, sc := range w.SCs {
+				if sc.Name == o.Sidecar {
+					var eg []Listener
+					for _, l := range sc.Egress {
+						if allExact(l) {
+							l.Hosts = append(append([]string{}, l.Hosts...), "zz-none/*")
+							changed = true
+						}
+						eg = append(eg, l)
+					}
+					sc.Egress = eg
+				}
+				w2.SCs = append(w2.SCs, sc)
+			}
+			if changed {
+				b2, err := build(w2, r)
+				if err != nil {
+					panic(err)
+				}
+				defer b2.Close()
+				o2 := runScope(b2, cfg, lbls, gateway)
+				fastDiffers = fmt.Sprint(o.Services) != fmt.Sprint(o2.Services)
+			}
+		}
 	})
 	if pan {
 		c.Violate(vlib.Violation{ID: id, Kind: "panic", Detail: msg, Case: map[string]any{"world": w, "cfg": cfg}})
@@ -517,9 +556,9 @@ func addScopeCase(t *testing.T, c *vlib.Collector, id int, w World, cfg string, 
 	if leak {
 		tags = append(tags, "scope:invisible-service-delivered")
 	}
-	if k3 && !gateway {
-		c.FindingOf[id] = findK3
-		tags = append(tags, "finding:K3")
+	if fastDiffers {
+		c.FindingOf[id] = findPaths
+		tags = append(tags, "finding:paths")
 	}
 	invisible := false
 	for _, s := range w.Svcs {
@@ -621,7 +660,6 @@ func addPathsCase(t *testing.T, c *vlib.Collector, id int, w World, cfg string, 
 		c.FindingOf[id] = findPaths
 		tags = append(tags, "finding:paths")
 	}
-	// K3 can also show in these worlds (VirtualServices are present)
 	args := append([]string{vlib.NI(id)}, worldArgs(w)...)
 	pr := func(o OScope) string {
 		return vlib.Pair(vlib.ListOf(o.Listeners, OListener.term), vlib.ListOf(o.Services, OSvc.term))
@@ -647,12 +685,108 @@ func canonListeners(o OScope) [][]OSvc {
 	return out
 }
 
+// ---------------------------------------------------------------- DestinationRule visibility
+
+var drExportPool = [][]string{nil, nil, {"*"}, {"."}, {"ns1"}, {"ns2"}, {"ns2", "ns3"}, {".", "ns2"}, {"ns1", "ns2", "ns3"}, {"ns1", "ns2"}, {"rootns"}, {"*", "ns1"}, {"ns3"}}
+var drHostPool = []string{"a.com", "b.a.com", "*.a.com", "*.b.a.com", "*.com", "c.org", "*.org", "*"}
+
+func genDR(t *testing.T, c *vlib.Collector, id *int, seed uint64) {
+	r := &randx{vlib.NewRand(seed ^ 0xc0705)}
+	n := vlib.Scale(300, 5000)
+	for k := 0; k < n; k++ {
+		*id++
+		w := World{M: Mesh{Root: "rootns", Unified: true, PickBest: true}}
+		if r.Chance(40) {
+			w.M.DrDefSet = true
+			w.M.DrDefault = vlib.Pick(r.Rand, [][]string{{"*"}, {"."}})
+		}
+		nd := 1 + r.Intn(6)
+		hosts := drHostPool
+		if r.Chance(50) {
+			hosts = drHostPool[:3]
+		}
+		nss := nsPool
+		if r.Chance(50) {
+			nss = []string{"ns1", "rootns"}
+		}
+		for i := 0; i < nd; i++ {
+			w.DRs = append(w.DRs, DR{Name: i + 1, Ns: vlib.Pick(r.Rand, nss), Host: vlib.Pick(r.Rand, hosts), Ctime: i,
+				Export: append([]string{}, vlib.Pick(r.Rand, drExportPool)...)})
+		}
+		proxyNs := vlib.Pick(r.Rand, nsPool)
+		svcNs := vlib.Pick(r.Rand, nss)
+		svcHost := vlib.Pick(r.Rand, []string{"a.com", "b.a.com", "x.b.a.com", "c.org", "*.b.a.com", "d.io"})
+		sub := r.Sub()
+		if !c.Wanted(*id) {
+			continue
+		}
+		addDRCase(t, c, *id, w, proxyNs, svcNs, svcHost, sub)
+	}
+}
+
+func addDRCase(t *testing.T, c *vlib.Collector, id int, w World, proxyNs, svcNs, svcHost string, sub *vlib.Rand, extraTags ...string) {
+	idp := &id
+	{
+		var obs [][][2]string
+		pan, msg := vlib.Recover(func() {
+			b, err := build(w, sub)
+			if err != nil {
+				panic(err)
+			}
+			defer b.Close()
+			from, _ := model.VerifC07DestinationRule(b.ps, proxyNs, &model.Service{Hostname: host.Name(svcHost),
+				Attributes: model.ServiceAttributes{Namespace: svcNs, Name: "x"}})
+			for _, f := range from {
+				var one [][2]string
+				for _, nn := range f {
+					one = append(one, [2]string{nn.Namespace, nn.Name})
+				}
+				obs = append(obs, one)
+			}
+		})
+		if pan {
+			c.Violate(vlib.Violation{ID: *idp, Kind: "panic", Detail: msg, Case: w})
+			return
+		}
+		tags := append([]string{"dr"}, extraTags...)
+		if os.Getenv("VERIF_DEBUG") != "" && len(extraTags) > 0 {
+			t.Logf("%v: destinationRule(%s, %s/%s) from = %v", extraTags, proxyNs, svcNs, svcHost, obs)
+		}
+		switch {
+		case len(obs) == 0:
+			tags = append(tags, "dr:none")
+		case len(obs) > 1:
+			tags = append(tags, "dr:several-consolidated")
+		}
+		for _, f := range obs {
+			if len(f) > 1 {
+				tags = append(tags, "dr:merged")
+				break
+			}
+		}
+		if proxyNs == "rootns" {
+			tags = append(tags, "dr:root-proxy")
+		}
+		term := vlib.App("DRule", vlib.NI(*idp), w.M.term(), vlib.ListOf(w.DRs, DR.term), vlib.Str(proxyNs), vlib.Str(svcNs), vlib.Str(svcHost),
+			vlib.ListOf(obs, func(f [][2]string) string {
+				return vlib.ListOf(f, func(p [2]string) string {
+					var n int
+					fmt.Sscanf(p[1], "dr%d", &n)
+					return vlib.Pair(vlib.Str(p[0]), vlib.NI(n))
+				})
+			}))
+		c.Add(vlib.Case{ID: *idp, Term: term, Tags: tags, Sample: map[string]any{"kind": "dr", "mesh": w.M, "drs": w.DRs, "proxy_ns": proxyNs,
+			"svc_ns": svcNs, "svc_host": svcHost, "from": obs}, Trivial: len(obs) == 0 && len(extraTags) == 0})
+	}
+}
+
 // ---------------------------------------------------------------- fixed witnesses of the _refuted theorems
 
 func genWitnesses(t *testing.T, c *vlib.Collector, id *int) {
 	r := vlib.NewRand(7)
 	m := Mesh{Root: "rootns", Unified: true, PickBest: true}
-	// K3: two ns1 services, exported only elsewhere / to nobody, and an ns1 VirtualService routing to them
+	// K3 regression (repaired in /repo cba5e9c): two ns1 services, exported only elsewhere / to nobody, and an ns1
+	// VirtualService routing to them; the scope must stay empty
 	*id++
 	if c.Wanted(*id) {
 		w := World{M: m,
@@ -663,7 +797,7 @@ func genWitnesses(t *testing.T, c *vlib.Collector, id *int) {
 			VSs: []VS{{Name: 1, Ns: "ns1", Hosts: []string{"d.io"}, Mesh: true, Ctime: 0,
 				Routes: []Route{{HTTP: true, Dests: []Dest{{Host: "a.com"}, {Host: "c.org"}}}}}},
 		}
-		addScopeCase(t, c, *id, w, "ns1", nil, false, r, "witness:K3")
+		addScopeCase(t, c, *id, w, "ns1", nil, false, r, "regression:K3")
 	}
 	// fast path vs scan path, (a) namespace tie-break follows candidate order
 	*id++
@@ -686,6 +820,27 @@ func genWitnesses(t *testing.T, c *vlib.Collector, id *int) {
 		l := Listener{Hosts: []string{"ns1/a.com"}}
 		l2 := Listener{Hosts: []string{"ns1/a.com", "zz-none/*"}}
 		addPathsCase(t, c, *id, w, "ns3", []Listener{l}, []Listener{l2}, r)
+	}
+	// (c) the index entry of (a.com, ns1) is an older service exported to nobody: the fast path delivers nothing
+	*id++
+	if c.Wanted(*id) {
+		w := World{M: m, Svcs: []Svc{
+			{Host: "a.com", Ns: "ns1", Export: []string{"~"}, Ports: []int{80}, Ctime: 1, Name: "s00"},
+			{Host: "a.com", Ns: "ns1", Export: []string{"*"}, Ports: []int{80}, Ctime: 2, Name: "s01"},
+		}}
+		l := Listener{Hosts: []string{"ns1/a.com"}}
+		l2 := Listener{Hosts: []string{"ns1/a.com", "zz-none/*"}}
+		addPathsCase(t, c, *id, w, "ns3", []Listener{l}, []Listener{l2}, r)
+	}
+	// observation (not a leak): a DestinationRule exported to [ns2, ns3] is merged into an older one exported to [ns2]
+	// and is not kept as a rule of its own, so ns3 gets no rule
+	*id++
+	if c.Wanted(*id) {
+		w := World{M: m, DRs: []DR{
+			{Name: 1, Ns: "ns1", Host: "a.com", Export: []string{"ns2"}, Ctime: 0},
+			{Name: 2, Ns: "ns1", Host: "a.com", Export: []string{"ns2", "ns3"}, Ctime: 1},
+		}}
+		addDRCase(t, c, *id, w, "ns3", "ns1", "a.com", r, "dr:superset-merged-not-standalone")
 	}
 	if os.Getenv("VERIF_DEBUG") != "" {
 		t.Logf("witness ids end at %d", *id)
